@@ -41,8 +41,14 @@ type Case struct {
 	MaxConc int `json:"max_conc,omitempty"`
 	// Transport "opaque": the data source / pre-fetch hook report a call aborted by the end of
 	// the caller's context with an error that does not wrap the context error (gRPC status style).
-	Transport string        `json:"transport,omitempty"`
-	Keys      []Key         `json:"keys"`
+	Transport string `json:"transport,omitempty"`
+	// DataSources is the number of entries of GraphQLResponse.DataSources on the plans (what
+	// postprocess.CollectDataSourceInfo() records): 0-4, the fetched subgraph first.
+	DataSources int `json:"data_sources,omitempty"`
+	// HdrMode "" (uniform): every subgraph receives the client's header set (equal per-subgraph
+	// hashes); "rotate": subgraph i receives set ((hdr-1+i) mod 3)+1 (different per-subgraph hashes).
+	HdrMode string        `json:"hdr_mode,omitempty"`
+	Keys    []Key         `json:"keys"`
 	Parts     []Participant `json:"parts"`
 	// Sched drives the harness: at every step the i-th number picks (mod n) among the enabled
 	// actions [start(p)…, cancel(p)…, resume(p)…, poison]; when exhausted the first enabled
@@ -52,7 +58,7 @@ type Case struct {
 
 func (c Case) text() string {
 	var b strings.Builder
-	fmt.Fprintf(&b, "%s/%s hard=%v maxconc=%d transport=%s keys=%v", c.Layer, c.OpType, c.HardCancel, c.MaxConc, c.Transport, c.Keys)
+	fmt.Fprintf(&b, "%s/%s hard=%v maxconc=%d transport=%s datasources=%d hdrmode=%s keys=%v", c.Layer, c.OpType, c.HardCancel, c.MaxConc, c.Transport, c.DataSources, c.HdrMode, c.Keys)
 	for i, p := range c.Parts {
 		wf := ""
 		if p.WriteFail {
@@ -79,7 +85,7 @@ func genKeys(t *rapid.T) []Key {
 	keys := []Key{{
 		Op:  rapid.IntRange(0, 1).Draw(t, "op"),
 		Var: rapid.IntRange(0, 1).Draw(t, "var"),
-		Hdr: rapid.IntRange(0, 2).Draw(t, "hdr"),
+		Hdr: rapid.IntRange(0, 3).Draw(t, "hdr"),
 	}}
 	for len(keys) < n {
 		// mostly near misses: differ from an existing key in exactly one component
@@ -91,9 +97,9 @@ func genKeys(t *rapid.T) []Key {
 		case 1:
 			k.Var = 1 - k.Var
 		case 2:
-			k.Hdr = (k.Hdr + rapid.IntRange(1, 2).Draw(t, "dh")) % 3
+			k.Hdr = (k.Hdr + rapid.IntRange(1, 3).Draw(t, "dh")) % 4
 		default:
-			k = Key{rapid.IntRange(0, 1).Draw(t, "op2"), rapid.IntRange(0, 1).Draw(t, "var2"), rapid.IntRange(0, 2).Draw(t, "hdr2")}
+			k = Key{rapid.IntRange(0, 1).Draw(t, "op2"), rapid.IntRange(0, 1).Draw(t, "var2"), rapid.IntRange(0, 3).Draw(t, "hdr2")}
 		}
 		dup := false
 		for _, e := range keys {
@@ -118,6 +124,10 @@ func genCase(layer string) func(t *rapid.T) Case {
 		c.MaxConc = rapid.SampledFrom([]int{0, 0, 0, 0, 1, 1, 1, 2}).Draw(t, "maxconc")
 		if rapid.IntRange(0, 2).Draw(t, "opaque") == 0 {
 			c.Transport = "opaque"
+		}
+		c.DataSources = rapid.SampledFrom([]int{0, 0, 1, 2, 2, 3, 4}).Draw(t, "datasources")
+		if rapid.IntRange(0, 2).Draw(t, "rotate") == 0 {
+			c.HdrMode = "rotate"
 		}
 		c.Keys = genKeys(t)
 		n := rapid.IntRange(2, 6).Draw(t, "nparts")
@@ -203,6 +213,19 @@ func (c *Case) sanitize() string {
 	default:
 		return "unknown transport " + c.Transport
 	}
+	if c.DataSources < 0 || c.DataSources > len(subgraphNames) {
+		return "data_sources out of range"
+	}
+	switch c.HdrMode {
+	case "", "rotate":
+	default:
+		return "unknown hdr_mode " + c.HdrMode
+	}
+	for _, k := range c.Keys {
+		if k.Hdr < 0 || k.Hdr > 3 {
+			return "header set out of range"
+		}
+	}
 	for i := range c.Keys {
 		for j := 0; j < i; j++ {
 			if c.Keys[i] == c.Keys[j] {
@@ -257,6 +280,24 @@ func runScheduled(c Case, o rec, opts runOpts) (pbt.Verdict, *sched) {
 	o.label("maxconc:%d", c.MaxConc)
 	if c.Transport == "opaque" {
 		o.label("transport:opaque")
+	}
+	o.label("datasources:%d", c.DataSources)
+	hm := "uniform"
+	if c.HdrMode != "" {
+		hm = c.HdrMode
+	}
+	// two requests in the case that differ only in their forwarded headers (both with a builder)
+	hdrOnly := false
+	for i, a := range c.Parts {
+		for _, b := range c.Parts[:i] {
+			ka, kb := c.Keys[a.Key], c.Keys[b.Key]
+			if ka.Op == kb.Op && ka.Var == kb.Var && ka.Hdr != kb.Hdr && ka.Hdr != 0 && kb.Hdr != 0 && a.Alt == b.Alt {
+				hdrOnly = true
+			}
+		}
+	}
+	if hdrOnly {
+		o.label("headers-only-differ:%s:datasources=%d", hm, c.DataSources)
 	}
 
 	// out_alone for everything this case can legitimately observe (fresh resolvers, nothing in flight)
